@@ -78,8 +78,9 @@ Inductive conv (G : ctx) : term -> term -> Prop :=
 | c_neg a a' : conv G a a' -> conv G (TNeg a) (TNeg a')
 | c_bin o a a' b b' : conv G a a' -> conv G b b' -> conv G (TBin o a b) (TBin o a' b')
 | c_if c c' a a' b b' : conv G c c' -> conv G a a' -> conv G b b' -> conv G (TIf c a b) (TIf c' a' b')
-| c_let ds ds' b b' :
-    Forall2 (fun p q => conv (enter ds G) (fst p) (fst q) /\ conv (enter ds G) (snd p) (snd q)) ds ds' ->
+| c_let ds ds' b b' :                                      (* annotations of definitions irrelevant, as for c_lam:
+                                                               syntactically_equal compares definitions and bodies only *)
+    Forall2 (fun p q => conv (enter ds G) (snd p) (snd q)) ds ds' ->
     conv (enter ds G) b b' -> conv G (TLet ds b) (TLet ds' b').
 
 (* ---------- typing ---------- *)
